@@ -290,8 +290,8 @@ def revalidate(ctx: Any) -> List[Ob]:
 
         def eff(node: Any, evl: Any, me: str = me) -> List[Any]:
             out = []
-            if any(isinstance(x, ast.Attribute) and self_attr(x, me) == 'registry' for e in node.exprs() for x in ast.walk(e)):
-                out.append('REGISTRY')
+            if any(isinstance(c.func, ast.Attribute) and any(isinstance(x, ast.Attribute) and self_attr(x, me) == 'registry' for x in ast.walk(c.func)) for c in fd.node_calls(node, evl)):
+                out.append('REGISTRY')  # a registry lookup that is actually evaluated (short-circuit aware)
             if any(isinstance(x, ast.Await) for e in node.exprs() for x in ast.walk(e)):
                 out.append('SUSPEND')
             if any(call_name(c) == 'async_send' for c in node.calls()):
